@@ -44,6 +44,20 @@ fn fat_view(l: &Lint, doc: &Document) -> String {
     )
 }
 
+/// A token as the identity of a lint sees it: its text - except for white space, which is taken
+/// the way Harper's parser classified it (so many blanks, so many line breaks, a paragraph break).
+/// A Markdown soft break with or without a blank next to it is one and the same token to Harper,
+/// and the property speaks of surrounding *words*.
+fn tok_repr(t: &harper_core::Token, src: &[char]) -> String {
+    use harper_core::TokenKind as K;
+    match &t.kind {
+        K::Space(n) => " ".repeat(*n),
+        K::Newline(n) => "\n".repeat(*n),
+        K::ParagraphBreak => "\n\n".to_string(),
+        _ => src[t.span.start..t.span.end.min(src.len())].iter().collect(),
+    }
+}
+
 pub fn identity(l: &Lint, doc: &Document) -> Identity {
     let src = doc.get_source();
     let toks = |a: usize, b: usize| -> Vec<String> {
@@ -53,7 +67,7 @@ pub fn identity(l: &Lint, doc: &Document) -> Identity {
         doc.get_tokens()
             .iter()
             .filter(|t| t.span.start < b && a < t.span.end && t.span.start < t.span.end)
-            .map(|t| src[t.span.start..t.span.end.min(src.len())].iter().collect())
+            .map(|t| tok_repr(t, src))
             .collect()
     };
     let (s, e) = (l.span.start, l.span.end.min(src.len()));
@@ -62,7 +76,12 @@ pub fn identity(l: &Lint, doc: &Document) -> Identity {
         message: l.message.clone(),
         suggestions: format!("{:?}", l.suggestions),
         priority: l.priority,
-        flagged: src[s.min(e)..e].iter().collect(),
+        flagged: {
+            // token by token where the span is made of whole tokens, the raw characters otherwise
+            let inside: Vec<&harper_core::Token> = doc.get_tokens().iter().filter(|t| t.span.start < e && s < t.span.end && t.span.start < t.span.end).collect();
+            let whole = !inside.is_empty() && inside.first().map(|t| t.span.start == s).unwrap_or(false) && inside.last().map(|t| t.span.end == e).unwrap_or(false);
+            if whole { inside.iter().map(|t| tok_repr(t, src)).collect::<Vec<_>>().concat() } else { src[s.min(e)..e].iter().collect() }
+        },
         before: toks(s.saturating_sub(2), s),
         after: toks(e, (e + 2).min(src.len())),
     }
